@@ -9,6 +9,8 @@ pub mod c01;
 pub mod c02;
 pub mod c03;
 pub mod c04;
+pub mod c05;
+pub mod c06;
 pub mod decide;
 pub mod shadow;
 pub mod trkmon;
@@ -50,6 +52,8 @@ pub fn registry() -> Vec<PropDef> {
         PropDef { id: "C02", level: "exploration", run: c02::run, replay: c02::replay, replay_isolated: None },
         PropDef { id: "C03", level: "exploration", run: c03::run, replay: c03::replay, replay_isolated: None },
         PropDef { id: "C04", level: "exploration", run: c04::run, replay: c04::replay, replay_isolated: None },
+        PropDef { id: "C05", level: "exploration", run: c05::run, replay: c05::replay, replay_isolated: None },
+        PropDef { id: "C06", level: "exploration", run: c06::run, replay: c06::replay, replay_isolated: None },
         PropDef { id: "C07", level: "exploration", run: c07::run, replay: c07::replay, replay_isolated: None },
         PropDef { id: "C08", level: "exploration", run: c08::run, replay: c08::replay, replay_isolated: None },
         PropDef { id: "C09", level: "exploration", run: c09::run, replay: c09::replay, replay_isolated: None },
